@@ -116,6 +116,7 @@ def check(case):
     # recorded / requested step times the controller's maximum growth factor (1 + pi/2)
     hmax = 2.6 * max(hmax, min(abs(case["dt"]), abs(tf - t0)))
     rate, scale = P.rate(), P.scale()
+    incr_ref = 0.0
     if "terminated upon finding a triggered event" in a.integration_status and N >= 1:
         # ... and its end state is not in the record either: the same run without events, carried one (inflated) step past
         # the stop, contains that step - its grid error bounds the error of the interpolant the event was located on
@@ -127,11 +128,13 @@ def check(case):
         if traj.run_integrate(ref, np.float64(beyond), step_limit=len(t) + 200) is None:
             tr_, yr_ = np.asarray(ref.t, dtype=np.float64), np.asarray(ref.y, dtype=np.float64)
             grid_err = max(grid_err, max(float(np.max(np.abs(yr_[k] - P.exact(tr_[k])))) for k in range(len(tr_))))
+            incr_ref = max([float(np.max(np.abs((yr_[k + 1] - yr_[k]) - (P.exact(tr_[k + 1]) - P.exact(tr_[k]))))) / abs(tr_[k + 1] - tr_[k]) for k in range(len(tr_) - 1)] + [0.0])
     herm = 8 * hmax ** 4 / 384.0 * rate ** 4 * scale if P.kind != "const" else 0.0
     if rich:
         herm += 1000 * (case["atol"] + case["rtol"] * scale)
     yerr = 2 * grid_err + herm + 64 * eps * scale * max(1.0, abs(t0), abs(float(t[-1])))
     incr_err = max([float(np.max(np.abs((y[k + 1] - y[k]) - (P.exact(t[k + 1]) - P.exact(t[k]))))) / abs(t[k + 1] - t[k]) for k in range(N)] + [0.0])
+    incr_err = max(incr_err, incr_ref)      # (the increment of the rolled-back step, for derivative-dependent events)
     accurate = grid_err <= 1e-2 * scale
     stopped = "terminated upon finding a triggered event" in a.integration_status
     if case["infinite"]:
